@@ -312,10 +312,14 @@ def vector_cases(draw):
     if border is not None or draw(st.booleans()):
         opts['border'] = border
     if kind == 'svg':
+        def unambiguous(c):
+            # an integer alpha of 1 in a tuple cannot be told apart from the float 1.0 (1 == 1.0):
+            # ambiguous by API design, not generated
+            return c[:3] + [2] if isinstance(c, list) and len(c) == 4 and c[3] == 1 else c
         if draw(st.integers(0, 9)) < 7:
-            opts['dark'] = draw(colors.with_alpha(none_ok=False))
+            opts['dark'] = unambiguous(draw(colors.with_alpha(none_ok=False)))
         if draw(st.integers(0, 9)) < 5:
-            opts['light'] = draw(colors.with_alpha(none_ok=True))
+            opts['light'] = unambiguous(draw(colors.with_alpha(none_ok=True)))
             # identical dark and light colours are excluded: the picture is one plain square then, and
             # whether the modules are stroked on top of it is not observable
             if opts['light'] is not None and colors.rgba_of(opts['light']) == colors.rgba_of(opts.get('dark', 'black')):
